@@ -322,6 +322,15 @@ func VReplayNs(task engine.SeqTask) (res engine.SeqResult) {
 	sort.Strings(ps)
 	sort.Strings(is)
 	res.Key = strings.Join(ps, ",") + "|" + strings.Join(is, ",")
+	// a restart is meant to change nothing: mark the state right behind it, or the search would never go on from there
+	if n := len(task.Hist); n > 0 {
+		var lo struct{ K string `json:"k"` }
+		_ = json.Unmarshal(task.Hist[n-1], &lo)
+		if lo.K == "restart" {
+			res.Key += "|just-restarted"
+		}
+	}
+
 	res.Outcome = res.Key
 	res.Viol = chk.Viol
 	res.Checks = chk.Checks
